@@ -77,6 +77,33 @@ class Lock:
         self.f.close()
 
 
+def casefile(tag):
+    """a case file of this process only: two runs of the same check at the same time must not share it.  The files of a
+    process are removed when it ends; the last one of each tag is kept under its plain name for py/covreport.py."""
+    d = os.path.join(BUILD, "cases")
+    os.makedirs(d, exist_ok=True)
+    cf = os.path.join(d, "%s.%d.case" % (tag, os.getpid()))
+    if cf not in _CASEFILES:
+        _CASEFILES.append(cf)
+        if len(_CASEFILES) == 1:
+            import atexit
+            atexit.register(_drop_casefiles)
+    return cf
+
+
+_CASEFILES = []
+
+
+def _drop_casefiles():
+    for cf in _CASEFILES:
+        plain = re.sub(r"\.\d+\.case$", ".case", cf)
+        for ext in ("", ".orc", ".impl", ".model"):
+            try:
+                os.replace(cf + ext, plain + ext)
+            except OSError:
+                pass
+
+
 # ---------------------------------------------------------------- Coq side
 def coq_sources():
     out = []
